@@ -293,7 +293,16 @@ def stage_jobs(pid, tier, si, stage, seed, workdir):
     """expand one stage into worker command lines"""
     name = stage['h']
     spec = HARNESS[name]
-    exe = build_harness(name)
+    try:
+        exe = build_harness(name)
+    except HarnessError as e:
+        # The *_fb variants compile the library against the fallback half of include/librfn/atomic.h. A tree that uses an
+        # atomic_*_explicit operation whose fallback macro the header does not (correctly) provide cannot be built that way:
+        # that is no verdict on the property, and the same stage on the native atomics still runs.
+        if name.endswith('_fb') and os.path.exists(os.path.join(BUILD, 'h_' + name[:-3])):
+            stage['_fz_skipped'] = 'the fallback-atomics (-D__STDC_NO_ATOMICS__) build of this tree failed, stage skipped: ' + str(e)[-300:]
+            return []
+        raise
     if stage['mode'] == 'fuzz' and '_fz' not in stage:
         fz, why = build_fuzz(name)
         stage['_fz'] = fz
